@@ -113,6 +113,10 @@ def main(pid, tier, jobs=None):
     opts = dict(getattr(mod, 'EXPLORE_OPTS', {}))
     opts.update(getattr(mod, 'EXPLORE_OPTS_TIER', {}).get(tier, {}))
     opts['seed'] = seed
+    # second opinion: in the thorough tier every 25th solver-decided property query is re-discharged with cvc5 from the
+    # SMT-LIB2 dump of the z3 solver state (VX_CROSS overrides the stride; 0 = off)
+    stride = os.environ.get('VX_CROSS')
+    opts['cross_every'] = int(stride) if stride is not None else (25 if tier == 'thorough' else 0)
     order = list(range(len(structures)))
     random.Random(seed).shuffle(order)
     weight = getattr(mod, 'weight', None)
@@ -140,6 +144,15 @@ def main(pid, tier, jobs=None):
     solver_s = 0.0
     samples = []
     replay_samples = []
+    cross = {'checked': 0, 'agree': 0, 'errors': 0, 'disagree': [], 'cvc5_s': 0.0}
+    for r in results:
+        cr = r.get('cross') or {}
+        for k in ('checked', 'agree', 'errors'):
+            cross[k] += cr.get(k, 0)
+        cross['cvc5_s'] += cr.get('cvc5_s', 0.0)
+        cross['disagree'] += cr.get('disagree', [])
+    if cross['disagree']:
+        problems.append('solver disagreement (z3 vs cvc5): %s' % cross['disagree'][:3])
     for r in results:
         if r['status'] != 'complete':
             problems.append('structure %s: %s: %s' % (json.dumps(r['structure'])[:200], r['status'], r['reason']))
@@ -283,6 +296,8 @@ def main(pid, tier, jobs=None):
             'solver_s': round(solver_s, 2),
             'solver': 'z3 ' + _z3_version(),
             'paths_replayed': paths_replayed,
+            'cvc5_cross_check': {'queries_rechecked': cross['checked'], 'agree': cross['agree'], 'cvc5_errors_or_unknown': cross['errors'],
+                                 'disagreements': len(cross['disagree']), 'cvc5_s': round(cross['cvc5_s'], 1)},
             'concolic_fallback_runs': fallback_runs,
             'stub_validation': {'cases': vres['cases'], 'failures': len(vres['failures'])},
             'vacuity': {lb: d['ok'] + d['viol'] + d['reached'] for lb, d in sorted(labels.items())},
